@@ -26,7 +26,7 @@ PROPS['C13'] = dict(
     explanation='theorems over all histories of the prefix table model; model tied to iri.PrefixManager by running both on the same histories',
 )
 
-HOOK_COMMITS = []
+HOOK_COMMITS = ['4b43602']
 NOT_YET = {}
 
 PROPS['C13'].update(
@@ -51,4 +51,22 @@ PROPS['C12'] = dict(
     level_text='Proof of the characterising theorems of the RFC 3986 transcription (parse/print identity on all strings, absolute-without-dots identity, dot-removal identity, absoluteness, fragment rule), '
                'kernel-checked; iri.ParsedIRI.Parse(...).String() is compared with that executable specification on 40k (quick) / 600k (thorough) generated pairs per run.',
     level_note='The theorems are about the RFC transcription; conformance of the Go code to it is established by the correspondence run only. One known finding (pct-encoded host rejected by net/url).',
+)
+
+PROPS['C14'] = dict(
+    families=[
+        dict(name='c14-seq', quick=3000, thorough=80000),
+        dict(name='c14-conc', quick=150, thorough=5000),
+    ],
+    rule='sequential histories (4-53 steps) over <=4 factories, <=3 string factories, <=3 int64 and <=2 UUID providers, <=3 mappers, '
+         '8 label strings incl. empty and duplicates, model = implementation step by step (non-trivial = >=2 lookups and >=3 nodes); '
+         'concurrent runs: 2-16 goroutines x 20-220 ops on shared factory / string factory / providers / mapper, oracle = the property itself on what was observed',
+    trusted_base=['model/BNodes.v: each step is one critical section (mutex.Lock..Unlock) or one atomic.Int64.Add of rdf/blank_node*.go, rdf/blanknodes/*.go',
+                  'atomicity of sync.Mutex / atomic.Int64 (Go memory model) is assumed: the theorems cover all interleavings of atomic steps',
+                  'crypto/rand injectivity is an explicit premise of C14_uuid_labels_injective'],
+    assumptions=['each GetBlankNodeString / MapBlankNode / NewBlankNode call is one atomic step'],
+    explanation='theorems over all schedules of the blank-node state machine; sequential histories tie the step semantics to the Go code; concurrent runs exercise the real locks',
+    level_text='Proof: freshness of every factory-made node, label function + injectivity from the first call on, mapper function + injectivity, string-factory equality, for all schedules of atomic steps; '
+               'the step semantics are compared with the Go code on sequential histories and the property itself is checked on real concurrent runs.',
+    level_note='Atomicity of each operation is assumed (mutex / atomic.Add as coded); UUID uniqueness is a premise. Hooks (build tag verif) expose identifier internals to the harness.',
 )
